@@ -205,6 +205,24 @@ def main(argv=None):
                     "what": "each mutant / independently seeded change is applied to a scratch copy of the current tree, facts are re-extracted and the check must report it; a miss means the rule lost its teeth (reported here, it does not make the unchanged tree a violation)"}
         print("selftest: fired=%d applicable=%d skipped=%d missed=%s" % (len(fired), len(fired) + len(missed), len(skipped), missed))
 
+        # ... and the converse: the stored behaviour-preserving refactorings must leave this check silent
+        tf2 = tempfile.NamedTemporaryFile(suffix=".json", delete=False)
+        tf2.close()
+        subprocess.run([os.path.join(VERIF, "bin", "refac-check"), "--prop", prop, "--json-file", tf2.name], stdout=subprocess.DEVNULL, stderr=subprocess.DEVNULL)
+        try:
+            with open(tf2.name) as f:
+                rres = json.load(f)
+        except (OSError, ValueError):
+            rres = []
+        os.unlink(tf2.name)
+        alarmed = [os.path.basename(os.path.dirname(r["patch"])) for r in rres if r.get("violations")]
+        errs = [os.path.basename(os.path.dirname(r["patch"])) for r in rres if r.get("error")]
+        selftest["refactorings_applied"] = len(rres)
+        selftest["refactorings_silent"] = len(rres) - len(alarmed) - len(errs)
+        selftest["refactorings_false_alarm"] = alarmed
+        selftest["refactorings_not_applicable"] = errs
+        print("refactor corpus: %d applied, %d silent, false alarms=%s, not applicable=%s" % (len(rres), len(rres) - len(alarmed) - len(errs), alarmed, errs))
+
     wall = time.time() - t0
     discharged = sum(1 for o in obligations if o["verdict"] != "VIOLATED")
     if not args.no_evidence:
